@@ -262,6 +262,13 @@ namespace
                     mk.assign(n, 0);
                 in.mask = mk;
             }
+            if (s > 0 && rng.chance(0.3))
+            {
+                // the set of base levels may change between two steps of one eroder as well (a node that was eroded before is an
+                // outlet now, and the other way round)
+                in.custom_bl = gen_base_levels(rng, env.R, in.bl, in.bl_cls) || in.custom_bl;
+                R.count("spl.base_levels_changed_between_steps");
+            }
             fix_domain(rng, env.R, in, true);
             hash_inputs(ch, in);
             apply_inputs(graph, env.g, in);
@@ -271,6 +278,16 @@ namespace
             // parameter changes between steps on the same eroder object
             if (s > 0)
             {
+                if (rng.chance(0.2))
+                {
+                    // eroders are values: a copy of a used eroder carries every parameter in force and shares nothing with the
+                    // original (which is given other parameters and dropped); the oracles below judge the copy from here on
+                    auto clone = std::make_unique<spl_t>(*eroder);
+                    eroder->set_k_coef(rng.logu(1e-7, 1e-1));
+                    eroder->set_area_exp(m_exp + 0.25);
+                    eroder = std::move(clone);
+                    R.count("spl.eroder_replaced_by_its_copy");
+                }
                 if (rng.chance(0.4))
                 {
                     if (rng.chance(0.5))
@@ -807,6 +824,14 @@ namespace
         {
             if (s > 0)
             {
+                if (rng.chance(0.2))
+                {
+                    // eroders are values (see the stream-power cases): the copy goes on, the original is changed and dropped
+                    auto clone = std::make_unique<adi_t>(*er);
+                    er->set_k_coef(rng.logu(1e-6, 1e3));
+                    er = std::move(clone);
+                    R.count("c14.eroder_replaced_by_its_copy");
+                }
                 if (rng.chance(0.6))
                 {
                     gen_k(kv, kscalar, ks, kcls);
